@@ -31,12 +31,12 @@ pub const SAMPLED: [RefMethod; 2] = [RefMethod::Sampled, RefMethod::External];
 
 /// Every draw history of the one-thread solver for (tree, method, spec, iters): the pinned
 /// configuration and its one-thread run. `capped` is set when the history count exceeded `cap`.
-pub fn histories(ctx: &Ctx, tree: &Tree, game: &G, al: &Alignment, method: RefMethod, spec: ParamSpec, iters: u64, cap: u64) -> (Vec<(Config, SeqRun)>, bool) {
+pub fn histories(ctx: &Ctx, tree: &Tree, game: &G, al: &Alignment, method: RefMethod, spec: ParamSpec, iters: u64, max_reg: f64, cap: u64) -> (Vec<(Config, SeqRun)>, bool) {
     let mut out = Vec::new();
     let stats = explore(
-        |decider| guarded(|| run_impl(tree, game, method, iters, 0.0, 1, None, spec.implementation(), decider)),
+        |decider| guarded(|| run_impl(tree, game, method, iters, max_reg, 1, None, spec.implementation(), decider)),
         |log, _prob, res| {
-            let cfg = Config { method, spec, iters, max_reg: 0.0, script: script_of(log), fallback: Fallback::First };
+            let cfg = Config { method, spec, iters, max_reg, script: script_of(log), fallback: Fallback::First };
             match res {
                 Ok(Ok(run)) => {
                     let flagged = match translate_log(al, method, log) {
@@ -120,11 +120,50 @@ fn layer_decomposition(ctx: &Ctx, totals: &mut LoomTotals) {
         for method in SAMPLED {
             for spec in &specs {
                 for &iters in budgets(method, ctx.thorough()) {
-                    let (hist, capped) = histories(ctx, tree, &game, &al, method, *spec, iters, cap);
-                    ctx.count(if capped { "history_enumerations_capped" } else { "history_enumerations_completed" }, 1);
-                    ctx.count("histories", hist.len() as u64);
-                    for (cfg, seq) in hist {
-                        out.push(loom_case(0, tree, &cfg, &seq, 2, &targets, false, &lb));
+                    // threshold 0 (never reached: the whole budget is used) and, at the largest
+                    // budget on every fourth game, +inf (reached after the first iteration whatever the
+                    // bounds are: the early exit itself must not depend on the decomposition)
+                    let last = budgets(method, ctx.thorough()).last() == Some(&iters);
+                    for max_reg in if last && (gi % 4 == 1 || tree.num_internal() > 4) { vec![0.0, f64::INFINITY] } else { vec![0.0] } {
+                        let (hist, capped) = histories(ctx, tree, &game, &al, method, *spec, iters, max_reg, cap);
+                        ctx.count(if capped { "history_enumerations_capped" } else { "history_enumerations_completed" }, 1);
+                        ctx.count("histories", hist.len() as u64);
+                        if max_reg > 0.0 {
+                            ctx.count("histories_with_an_early_exit", hist.len() as u64);
+                        }
+                        for (cfg, seq) in hist {
+                            out.push(loom_case(0, tree, &cfg, &seq, 2, &targets, false, &lb));
+                            // thresholds that this very history passes in mid-run: up to two values
+                            // strictly between consecutive bounds of its prefix runs (every eighth
+                            // game and the larger ones)
+                            if last && max_reg == 0.0 && iters >= 2 && (gi % 8 == 0 || tree.num_internal() > 4) {
+                                let mut totals = Vec::new();
+                                for t in 1..=iters {
+                                    match sequential(tree, &game, &al, &Config { iters: t, ..cfg.clone() }) {
+                                        Ok(run) => totals.push(f64::max(run.out.bounds[0], run.out.bounds[1])),
+                                        Err(_) => {
+                                            totals.clear();
+                                            break;
+                                        }
+                                    }
+                                }
+                                let mut mids = Vec::new();
+                                for pair in totals.windows(2) {
+                                    let (hi, lo) = (f64::max(pair[0], pair[1]), f64::min(pair[0], pair[1]));
+                                    if hi.is_finite() && hi - lo > 1e-3 * f64::max(1.0, hi) {
+                                        mids.push((hi + lo) / 2.0);
+                                    }
+                                }
+                                mids.truncate(2);
+                                for r in mids {
+                                    let stopped = Config { max_reg: r, ..cfg.clone() };
+                                    if let Ok(run) = sequential(tree, &game, &al, &stopped) {
+                                        out.push(loom_case(0, tree, &stopped, &run, 2, &targets, false, &lb));
+                                        ctx.count("histories_with_a_threshold_passed_in_mid-run", 1);
+                                    }
+                                }
+                            }
+                        }
                     }
                 }
             }
@@ -255,7 +294,7 @@ fn layer_two(ctx: &Ctx, totals: &mut LoomTotals) {
                         (_, true) => &[1, 2],
                     };
                     for &iters in iters_list {
-                        let (hist, _) = histories(ctx, tree, &game, &al, method, *spec, iters, cap);
+                        let (hist, _) = histories(ctx, tree, &game, &al, method, *spec, iters, 0.0, cap);
                         for (cfg, seq) in hist {
                             for target in &targets {
                                 out.push(loom_case(0, tree, &cfg, &seq, 2, &[*target], true, &lb));
